@@ -197,6 +197,307 @@ class PatchelfPostInstall(RpathTool):
         return out
 
 
+# ---- the install and uninstall command lists (C15) -------------------------------------------------------------
+#
+# One description of an installation, read off the install database (built file -> staged copy, in insertion
+# order): a plain file is copied *onto* its staged path with the mode of its kind; a directory with a file list is
+# copied *into* its staged path, file by file relative to the directory (structure kept); then the post-install step of
+# every entry that has one.  The uninstall list is one removal command whose operands are exactly the paths the
+# install list creates: the staged path of each plain file, and staged directory + relative path for each file of a
+# directory -- never the directory itself, never anything else.
+
+import bfg9000.builtins.install as INS
+from bfg9000.file_types import Directory as _Directory, File as _File
+
+
+class InstallLists(RpathTool):
+    properties = ('C15',)
+    SHAPES = ('file', 'directory-2', 'directory-0', 'file+post')
+
+    def cases(self):
+        import itertools
+        return ['none'] + ['/'.join(c) for n in (1, 2) for c in itertools.product(self.SHAPES, repeat=n)]
+
+    def entries(self, case):
+        return [] if case == 'none' else case.split('/')
+
+    def database_of(self, case):
+        host = {}
+        for i, shape in enumerate(self.entries(case)):
+            tag = 'item%d' % i
+            srcpath = Obj(object, {'built': tag})
+            if shape.startswith('directory'):
+                n = int(shape[-1])
+                files = []
+                for j in range(n):
+                    files.append(Obj(_File, {'path': Obj(object, {'built_member': (tag, j), 'relpath': OpaqueFn(
+                        'relpath', lambda I, a, k, tag=tag, j=j: Obj(object, {'relative': (tag, j), 'to_built': a[0].attrs.get('built')}))})}))
+                src = Obj(_Directory, {'path': srcpath, 'files': PList(files), 'install_kind': 'data', 'post_install': None, 'tag': tag})
+            else:
+                post = None
+                if shape == 'file+post':
+                    post = OpaqueFn('post_install', lambda I, a, k, tag=tag: Obj(object, {'post_install_of': tag}))
+                src = Obj(_File, {'path': srcpath, 'install_kind': 'program' if i % 2 else 'data', 'post_install': post, 'tag': tag})
+            dstpath = Obj(object, {'staged': tag, 'append': OpaqueFn(
+                'append', lambda I, a, k, tag=tag: Obj(object, {'staged_below': tag, 'member': a[0].attrs.get('relative'), 'of': a[0].attrs.get('to_built')}))})
+            host[src] = Obj(object, {'path': dstpath})
+        # representation invariant of InstallOutputs (add() is the only mutator): something was asked for explicitly
+        # iff the database has entries
+        return Obj(INS.InstallOutputs, {'host': PDict(host), 'target': PDict({}), 'env': None, 'explicit': PList(list(host)[:1])})
+
+    def kind_of(self, case, i):
+        shape = self.entries(case)[i]
+        return 'data' if shape.startswith('directory') else ('program' if i % 2 else 'data')
+
+
+class InstallFiles(InstallLists):
+    target = 'bfg9000/builtins/install.py::_install_files'
+
+    def params(self, cx, case):
+        cx.ghost('case', case)
+        return {'install_outputs': self.database_of(case), 'buildfile': Obj(object, {}), 'env': Obj(object, {})}
+
+    def opaque_calls(self):
+        def doppel_cmd(I, args, kwargs, node=None):
+            def for_kind(I, a, k, node=None):
+                kind = a[0]
+
+                def run(I, a2, k2, node=None):
+                    I.events.append(('copy', [kind] + list(a2), dict(k2)))
+                    return Obj(object, {'copy_command': len([e for e in I.events if e[0] == 'copy']) - 1})
+                return Obj(object, {'__call__': OpaqueFn('copy', run)})
+            return Obj(object, {'__call__': OpaqueFn('doppel', for_kind)})
+
+        def warn(I, args, kwargs, node=None):
+            I.events.append(('warn', list(args), {}))
+        import warnings
+        return {INS._doppel_cmd: doppel_cmd, warnings.warn: warn}
+
+    def ensures(self, a, r):
+        shapes = self.entries(a.case)
+        copies = [e for e in a.events if e[0] == 'copy']
+        out = {'one_copy_command_per_entry': z3.BoolVal(len(copies) == len(shapes))}
+        if len(copies) != len(shapes):
+            return out
+        ok_kind, ok_place, ok_members = True, True, True
+        for i, (shape, (_, args, kw)) in enumerate(zip(shapes, copies)):
+            tag = 'item%d' % i
+            ok_kind = ok_kind and args[0] == self.kind_of(a.case, i)
+            if shape.startswith('directory') and shape != 'directory-0' or shape == 'directory-0':
+                n = int(shape[-1])
+                ok_place = ok_place and len(args) == 4 and args[1] == 'into' and self.has(args[3], 'staged', tag) and \
+                    self.has(kw.get('directory'), 'built', tag)
+                rel = args[2] if len(args) == 4 else None
+                items = list(rel.items) if isinstance(rel, PList) and rel.concrete else None
+                ok_members = ok_members and items is not None and len(items) == n and all(
+                    self.has(x, 'relative', (tag, j)) and self.has(x, 'to_built', tag) for j, x in enumerate(items))
+            else:
+                ok_place = ok_place and len(args) == 4 and args[1] == 'onto' and self.has(args[2], 'built', tag) and \
+                    self.has(args[3], 'staged', tag) and not kw
+        out['copied_with_the_mode_of_its_kind'] = z3.BoolVal(bool(ok_kind))
+        out['each_entry_goes_to_its_staged_path'] = z3.BoolVal(bool(ok_place))
+        out['directory_members_relative_to_the_directory'] = z3.BoolVal(bool(ok_members))
+        items = list(r.items) if isinstance(r, PList) and r.concrete else None
+        posts = [i for i, sh in enumerate(shapes) if sh == 'file+post']
+        ok = items is not None and len(items) == len(shapes) + len(posts)
+        if ok:
+            ok = all(self.has(x, 'copy_command', i) for i, x in enumerate(items[:len(shapes)])) and \
+                all(self.has(x, 'post_install_of', 'item%d' % i) for x, i in zip(items[len(shapes):], posts))
+        out['list_is_the_copies_then_the_post_install_steps'] = z3.BoolVal(bool(ok))
+        return out
+
+
+class UninstallFiles(InstallLists):
+    target = 'bfg9000/builtins/install.py::_uninstall_files'
+
+    def params(self, cx, case):
+        cx.ghost('case', case)
+        return {'install_outputs': self.database_of(case), 'env': self.environment('rm')}
+
+    def ensures(self, a, r):
+        shapes = self.entries(a.case)
+        calls = [e for e in a.events if e[0] == 'tool_call']
+        items = list(r.items) if isinstance(r, PList) and r.concrete else None
+        if not shapes:
+            return {'nothing_to_remove_when_nothing_is_installed': z3.BoolVal(items == [] and not calls)}
+        out = {'one_removal_command': z3.BoolVal(len(calls) == 1 and items is not None and len(items) == 1 and
+                                                 self.has(items[0], 'the_command', True))}
+        if len(calls) != 1:
+            return out
+        _, args, kw = calls[0]
+        ops = args[0] if len(args) == 1 else None
+        ops = list(ops.items) if isinstance(ops, PList) and ops.concrete else None
+        want = []
+        for i, shape in enumerate(shapes):
+            tag = 'item%d' % i
+            if shape.startswith('directory'):
+                want += [('member', tag, j) for j in range(int(shape[-1]))]
+            else:
+                want.append(('file', tag))
+        ok = ops is not None and len(ops) == len(want)
+        if ok:
+            for x, w in zip(ops, want):
+                if w[0] == 'file':
+                    ok = ok and self.has(x, 'staged', w[1])
+                else:
+                    ok = ok and self.has(x, 'staged_below', w[1]) and self.has(x, 'member', (w[1], w[2])) and self.has(x, 'of', w[1])
+        out['removes_exactly_the_paths_the_install_list_creates'] = z3.BoolVal(bool(ok))
+        return out
+
+
+class AddInstallPaths(Contract):
+    """Every installation root gets exactly one path variable, bound to the configured directory of that root; the
+    DESTDIR variable is defined iff the backend has one (supports_destdir), from the configured environment."""
+    target = 'bfg9000/builtins/install.py::_add_install_paths'
+    properties = ('C15',)
+
+    def cases(self):
+        return ['destdir', 'no-destdir']
+
+    def params(self, cx, case):
+        from bfg9000.path import DestDir
+        pv = {r: Obj(object, {'variable_for': r.name}) for r in InstallRoot}
+        if case == 'destdir':
+            pv[DestDir.destdir] = Obj(object, {'variable_for': 'DESTDIR'})
+        cx.ghost('destdir', case == 'destdir')
+
+        def variable(I, a, k, node=None):
+            I.events.append(('variable', list(a), dict(k)))
+            return a[0]
+
+        def getvar(I, a, k, node=None):
+            I.events.append(('getvar', list(a), dict(k)))
+            return Obj(object, {'configured_value_of': a[0], 'default': a[1] if len(a) > 1 else None})
+        buildfile = Obj(object, {'path_vars': PDict(pv), 'variable': OpaqueFn('variable', variable),
+                                 'Section': Obj(object, {'path': 'the-path-section', 'other': 'another-section'})})
+        env = Obj(object, {'install_dirs': PDict({r: Obj(object, {'directory_of': r.name}) for r in InstallRoot}),
+                           'variables': Obj(object, {'get': OpaqueFn('get', getvar)})})
+        return {'buildfile': buildfile, 'env': env}
+
+    def ensures(self, a, r):
+        defs = [e for e in a.events if e[0] == 'variable']
+        roots = [r_.name for r_ in InstallRoot]
+        got = {}
+        ok = True
+        for _, args, kw in defs:
+            ok = ok and len(args) == 3 and not kw and isinstance(args[0], Obj) and args[2] == 'the-path-section'
+            if ok:
+                nm = args[0].attrs.get('variable_for')
+                ok = ok and nm not in got
+                got[nm] = args[1]
+        out = {'one_definition_per_variable_in_the_path_section': z3.BoolVal(bool(ok))}
+        if not ok:
+            return out
+        out['every_root_bound_to_its_configured_directory'] = z3.BoolVal(all(
+            RpathTool.has(got.get(n), 'directory_of', n) for n in roots))
+        if a.destdir:
+            v = got.get('DESTDIR')
+            out['destdir_from_the_configured_environment'] = z3.BoolVal(
+                RpathTool.has(v, 'configured_value_of', 'DESTDIR') and v.attrs.get('default') == '')
+        out['nothing_else_defined'] = z3.BoolVal(sorted(got) == sorted(roots + (['DESTDIR'] if a.destdir else [])))
+        return out
+
+
+class Installify(Contract):
+    """Where a built file goes (the path function installify() hands to clone()): the file itself and its public
+    parts get  <platform path>(install suffix of the part, root, DESTDIR iff not a cross build)  where the root is
+    the given installation directory, or the given relative directory below the root of the part's kind, or that
+    root itself; a private part keeps its path (it is not installed); a file outside the source and build trees, a
+    directory that is not below an installation root, or a kind without a root and no directory, is refused."""
+    target = 'bfg9000/builtins/install.py::installify'
+    properties = ('C15',)
+    DIRECTORY = ('none', 'empty', 'relative', 'install-path', 'other-path')
+    WHERE = ('builddir', 'srcdir', 'external')
+    KIND = ('kind-root', 'no-kind-root')
+    CROSS = ('native', 'cross')
+
+    def cases(self):
+        import itertools
+        return ['/'.join(c) for c in itertools.product(self.DIRECTORY, self.WHERE, self.KIND, self.CROSS)]
+
+    def params(self, cx, case):
+        from specs.stubs import HostPathStub, TargetPathStub
+        import bfg9000.path as BP
+        from bfg9000.file_types import BaseFile
+        d, where, kind, cross = case.split('/')
+        for k, v in zip(('d', 'where', 'kind', 'is_cross'), (d, where, kind, cross == 'cross')):
+            cx.ghost(k, v)
+        root = {'builddir': Root.builddir, 'srcdir': Root.srcdir, 'external': Root.absolute}[where]
+
+        def part(tag, private, proot=root):
+            return Obj(BaseFile, {'tag': tag, 'private': private, 'path': Obj(HostPathStub, {'root': proot, 'suffix': thing('built_' + tag), 'destdir': False}),
+                                  'install_root': InstallRoot.bindir if kind == 'kind-root' else None,
+                                  'install_suffix': thing('install_suffix_' + tag)})
+        f = part('file', False)
+        parts = [f, part('private_part', True), part('public_part', False)]
+
+        def clone(I, a, k, node=None):
+            I.events.append(('clone', list(a), dict(k)))
+            res = []
+            for p in parts:
+                res.append(I.call(a[0], [p], {}, node))
+            return Obj(object, {'cloned_paths': PList(res)})
+        f.attrs['clone'] = OpaqueFn('clone', clone)
+        given = cx.str('given_directory')
+        cx.ghost('given', given)
+        directory = {'none': None, 'empty': '', 'relative': given,
+                     'install-path': Obj(BP.Path, {'root': InstallRoot.libdir, 'is_given': True}),
+                     'other-path': Obj(BP.Path, {'root': Root.builddir, 'is_given': True})}[d]
+        cross_env = Obj(object, {'target_platform': Obj(object, {'Path': TargetPathStub})}) if cross == 'cross' else None
+        return {'file': f, 'directory': directory, 'cross': cross_env}
+
+    def opaque_calls(self):
+        import bfg9000.path as BP
+
+        def below(I, a, k, node=None):
+            return Obj(object, {'below': (a[0], a[1])})
+        return {BP.Path: below}
+
+    def requires(self, a):
+        return z3.Length(a.given.e) > 0 if a.d == 'relative' else z3.BoolVal(True)
+
+    def raises(self, a):
+        # (the private part is visited after the file itself; the first refusal wins)
+        if a.where == 'external':
+            return [(ValueError, True)]
+        if a.d == 'other-path':
+            return [(ValueError, True)]
+        if a.d in ('none', 'empty', 'relative') and a.kind == 'no-kind-root':
+            return [(TypeError, True)]
+        return []
+
+    def ensures(self, a, r):
+        from specs.stubs import HostPathStub, TargetPathStub
+        clones = [e for e in a.events if e[0] == 'clone']
+        out = {'whole_file_cloned_recursively': z3.BoolVal(len(clones) == 1 and clones[0][2].get('recursive') is True)}
+        paths = r.attrs.get('cloned_paths') if isinstance(r, Obj) else None
+        items = list(paths.items) if isinstance(paths, PList) and paths.concrete else None
+        if items is None or len(items) != 3:
+            out['three_parts'] = z3.BoolVal(False)
+            return out
+        priv = items[1]
+        out['private_part_keeps_its_path'] = z3.BoolVal(isinstance(priv, Obj) and priv.cls is HostPathStub and
+                                                        isinstance(priv.attrs.get('suffix'), Sym) and
+                                                        z3.eq(priv.attrs['suffix'].e, thing('built_private_part').e))
+        ok = True
+        for tag, p in (('file', items[0]), ('public_part', items[2])):
+            ok = ok and isinstance(p, Obj) and p.cls is (TargetPathStub if a.is_cross else HostPathStub)
+            ok = ok and p.attrs.get('destdir') is (not a.is_cross)
+            sfx = p.attrs.get('suffix') if ok else None
+            ok = ok and isinstance(sfx, Sym) and z3.eq(sfx.e, thing('install_suffix_' + tag).e)
+            rt = p.attrs.get('root') if ok else None
+            if a.d in ('none', 'empty'):
+                ok = ok and rt is InstallRoot.bindir
+            elif a.d == 'relative':
+                ok = ok and isinstance(rt, Obj) and isinstance(rt.attrs.get('below'), tuple) and \
+                    isinstance(rt.attrs['below'][0], Sym) and z3.eq(rt.attrs['below'][0].e, a.given.e) and \
+                    rt.attrs['below'][1] is InstallRoot.bindir
+            else:
+                ok = ok and isinstance(rt, Obj) and rt.attrs.get('is_given') is True
+        out['installed_parts_go_below_the_chosen_root_with_destdir_iff_native'] = z3.BoolVal(bool(ok))
+        return out
+
+
 # ---- what the regeneration step declares as its outputs, and how the list is persisted (C10) ----------------------
 #
 # find_check_cache (contracts/regencheck.py) compares the find cache with "the build file" = the first persisted
@@ -352,4 +653,4 @@ class RegenFilesRoundTrip(Contract):
 
 
 def registry():
-    return [SupportsDestdir(), DarwinPostInstall(), PatchelfPostInstall(), RegenOutputs(), RegenFilesToJson(), RegenFilesFromJson(), RegenFilesRoundTrip()]
+    return [SupportsDestdir(), DarwinPostInstall(), PatchelfPostInstall(), RegenOutputs(), RegenFilesToJson(), RegenFilesFromJson(), RegenFilesRoundTrip(), InstallFiles(), UninstallFiles(), AddInstallPaths(), Installify()]
